@@ -20,7 +20,7 @@ ASSUMPTIONS = ["the pointer generator is a scripted stream shared with the model
 
 IMPORTS = "Model.Vocab Tie.VocabTie"
 NAMES_VALID = ["A", "B", "Cc", "D_1"]
-NAMES_INVALID = ["a", "1A", "", "A-B", "Ab c", "Ab!", "B+", "A.b"]
+NAMES_INVALID = ["a", "1A", "", "A-B", "Ab c", "Ab!", "B+", "A.b", " Cc", "B ", "\tD_1"]
 NAMES_RESERVED = ["Identity", "None", "Zero", "True", "AbsorbingElement"]
 ALPHABET = NAMES_VALID + NAMES_INVALID[:3] + NAMES_RESERVED
 
